@@ -719,7 +719,7 @@ func init() {
 		ruleSplice(r)
 		rulePosCodec(r)
 		r.support(grpOrder, grpFormat, grpPools, []string{"reloc-keys", "bad-index-removal", "pool-flush-complete", "scan-complete-before-truncate", "primary-mark", "gc-mark-guard", "gc-not-current", "retain", "reloc-binding", "bucket-after-write", "tail-recovery",
-			"meta-atomic", "rollover-siblings", "rollover-switch", "strip-whole-bytes", "index-names-new-location", "freelist-consume", "togc", "upgrade-order", "chunk-accounting"})
+			"meta-atomic", "rollover-siblings", "rollover-switch", "strip-whole-bytes", "index-names-new-location", "freelist-consume", "togc", "upgrade-order", "chunk-accounting", "remap-offset", "remap-completion", "chunk-accounting"})
 	},
 		"Decides structural necessary conditions of the fsck invariant, not the invariant over reachable disk states: no location is put on the freelist unless the index stopped naming it on that path; FirstFile advances only past a file shown empty and only when it is the header's first file, and the file is unlinked only after the header write; all scanners/readers honour the deleted bit; a merged free span grows by exactly the bytes the scanner advances over (log stays framed); the rescan applies every non-deleted record; writer, rescan and GC agree on the bucket position convention; writer and reader tables of the index entry, index log record, freelist entry and primary record agree (affine). Not covered: sortedness/prefix-freeness of entries, that entries point at records carrying the right key, division-based absolute-position arithmetic.")
 }
